@@ -541,6 +541,45 @@ def run(ctx):
     n = ctx.scale(50_000, 3_000_000)
     ops = gen_ops(ctx, n)
     ctx.correspond("elapsed.ops", ops, impl, oracle=oracle, neighbours=neighbours)
+    translator_selftest(ctx)
+
+
+def translator_selftest(ctx):
+    """Differential self-test of tools/py2lean.py (the translator behind the generated-definition tie of C03, C01/C02,
+    C10): its corpus of small functions covering every translated construct is translated, the generated Lean is
+    evaluated on a grid of inputs and compared with CPython running the same functions. One oracle case per corpus
+    function; independent of the repository under test (it validates the translator, not pyoda_time)."""
+    import json
+    import subprocess
+    import sys
+    import common
+    tool = common.VERIF / "tools" / "py2lean_selftest.py"
+    p = subprocess.run([sys.executable, str(tool), "--json"], capture_output=True, text=True, timeout=1800)
+    if p.returncode not in (0, 1):
+        raise common.InfraError(f"py2lean_selftest exited {p.returncode}: {(p.stdout + p.stderr)[-500:]}")
+    r = json.loads(p.stdout)
+    if r.get("errors"):
+        raise common.InfraError(f"py2lean_selftest could not run: {r['errors'][:2]}")
+    dis = {}
+    for d in r.get("disagreements", []):
+        dis.setdefault(d["function"], d)
+    cases = sorted(r["per_function"].items()) + sorted(("refuse:" + k, v) for k, v in r.get("refused", {}).items())
+    ctx.note("translator_selftest", {"functions": r["functions"], "evaluations": r["evaluations"], "must_refuse": len(r.get("refused", {}))})
+
+    def fn(case):
+        name, st = case
+        if name.startswith("refuse:"):
+            if not st["ok"]:
+                return {"key": "translator-selftest-not-refused",
+                        "what": f"py2lean must refuse corpus function {name[7:]} with '{st['expected_fragment']}', but: {st['error']}"}
+            return None
+        if st["disagree"]:
+            d = dis.get(name, {})
+            return {"key": "translator-selftest-disagreement",
+                    "what": f"py2lean translation of corpus function {name} differs from CPython on {st['disagree']} of {st['inputs']} inputs, "
+                            f"e.g. input {d.get('input')}: python {d.get('python')} / generated Lean {d.get('lean')}"}
+        return None
+    ctx.check_cases("translator.selftest", cases, fn)
 
 
 def replay_op(op, failure):
